@@ -386,3 +386,8 @@ Proof.
 Qed.
 
 End NoOverflow.
+
+Lemma softmax_example_proof : softmax_out 2 (fun _ => 0) 0%nat = 1 / 2.
+Proof.
+  unfold softmax_out. cbv zeta. rewrite softmax_math by lia. unfold expsum. simpl. rewrite exp_0. field.
+Qed.
